@@ -7,6 +7,12 @@ HOOK_COMMITS = subprocess.run(["git", "-C", "/repo", "log", "--format=%H", "--",
                               stdout=subprocess.PIPE, text=True).stdout.split()
 
 CLAIMED = {
+ "C07": dict(cat="proof", tech="Go-AST translator regenerating lock facts from /repo on every run + Coq proof of mutual exclusion for well-locked methods, re-checked on the regenerated facts by vm_compute; race detector as failing-input search",
+   text="Generated/LockFacts.v is rewritten from the sources on every run; C07_facts_ok re-checks inside Coq that every exported method touching guarded state holds the lock (22 listed known findings excepted), C07_core_methods_locked pins the update/query methods; the Conc.v theorems prove that under that discipline at most one thread is inside a body and only the holder changes the state. A new unlocked access breaks the obligation; the check then runs that method against concurrent updates under -race for a replay.",
+   note="Trusted: the translator, sync.RWMutex as an atomic lock, Coq kernel. Not modelled: the Go memory model below mutex granularity, the scheduler. Full serialisability (trace = concatenation of bodies) is argued from the two proved consequences, not yet a single theorem.", ref="6 C07"),
+ "C15": dict(cat="other", tech="Coq proofs over the reals of the sizing identities (stdlib real axioms) + structural lemmas and an idealised refutation on the model + correspondence of the code's formulas with 200-bit reference values and the Coq probe formulas + statistical acceptance test",
+   text="The property is statistical over the hash, so it is only partly a theorem: proved are the Bloom sizing identity (estimate = budget, rounding up is safe), the two Count-Min inequalities, that probe/row positions depend on their index and stay in range, and that cuckoo fingerprints are decimal digits (10^fpl values) which refutes the budget for an accepted configuration. The code's CalculateFilterSize/NumHashes/FingerPrintLength, CMS dimensions and the getIndex/getPositions/rank formulas are diffed against references. Empirical rates are tested with a one-sided 5-sigma bound (a test, not a proof).",
+   note="Axioms: ClassicalDedekindReals.sig_forall_dec, sig_not_dec, functional_extensionality_dep, Classical_Prop.classic (standard library Reals). libm trusted for the implementation side.", ref="6 C15"),
  "C08": dict(cat="proof", tech="two Coq models (memory / Redis store + Lua scripts) over the same position functions, each tied to its implementation by extracted-model correspondence; lock-step implementation pairs as failing-input search; shared-rule lemmas proved (partial)",
    text="Every structure has a memory model and a Redis model (store of strings/lists/hashes/sorted sets, every Lua script as a store transformer), each diffed against its own implementation; both are parametric in the same position/fingerprint/rank functions. The two implementations are additionally run in lock-step on common histories (Top-K up to ties, cuckoo until the first relocation). Proved: the shared register rule, positions, ordering, exactness of Lua arithmetic below 2^53. The store-level refinement theorems are not yet proved (partial). One defect repaired (Redis HLL harmonic mean truncation).",
    note="Trusted as C03 plus miniredis + gopher-lua as Redis.", ref="6 C08"),
